@@ -67,10 +67,19 @@ def run(chk):
     args += ["--tmpdir", wd]
     jobs = [lambda s=s: vf.run_proc(
         [h, "--seed", str(chk.seed), "--shard", str(s), "--shards",
-         str(shards)] + args, env=env, timeout=3000) for s in range(shards)]
+         str(shards), "--skip-rename"] + args, env=env, timeout=3000)
+        for s in range(shards)]
+    what = ["c18 shard %d" % s for s in range(shards)]
+    # the RenameMolecules family runs in processes of its own
+    nren = vf.tier_n(chk.tier, 8000, 80000)
+    jobs += [lambda s=s: vf.run_proc(
+        [h, "--seed", str(chk.seed), "--shard", str(s), "--only-rename",
+         "--rename", str(nren), "--tmpdir", wd], env=env, timeout=3000)
+        for s in range(4)]
+    what += ["c18 rename shard %d" % s for s in range(4)]
     try:
-        for s, res in enumerate(vf.run_parallel(jobs)):
-            if not chk.ingest(res, "c18 shard %d" % s):
+        for w, res in zip(what, vf.run_parallel(jobs)):
+            if not chk.ingest(res, w):
                 chk.sanitizer["reports"] += 0 if res.rc == 0 else 1
     finally:
         shutil.rmtree(wd, ignore_errors=True)
